@@ -72,6 +72,18 @@ def add_map_kind(u, name):
          requires=SGM_REQ, ensures=SGM_ENS)
 
 
+SLICE_RULES = [('N10', r'SyncUnsafeCell::as_cell_of_slice\((.*?)\)\.get\(\)', r'cells_as_slice(\1)'), ('N8', r'Self::Element', 'T')]
+
+
+def add_dense_slice(u, extra=''):
+    u.groups['impl_dense_slice'] = dict(header='impl<T> SliceAccess<T> for DenseVecStorage<T>', private=False,
+                                        pre='    type Element = T;\n    // the dense slice: the stored values in dense order (a permutation of the map\'s values, by dense_wf)\n    spec fn slice_view(&self) -> Seq<T> { self.data@.map_values(|c: SyncUnsafeCell<T>| c.cv()) }\n')
+    u.fn(ST, ['impl<T> SliceAccess<T> for DenseVecStorage<T>', 'fn as_slice'], props=('C04 ' + extra).strip(), group='impl_dense_slice', key='DenseVecStorage::as_slice',
+         rules=SLICE_RULES, hint_obligations=[E('trait.as_slice.view', 'inherited postcondition of SliceAccess::as_slice', ('C04 ' + extra).strip())],
+         bind={'p': r'let (\w+) = cells_as_slice\('},
+         hints=[('after', 'cells_as_slice(', 'proof { assert($p@ =~= self.data@.map_values(|c: SyncUnsafeCell<T>| c.cv())); }')])
+
+
 def add_dense_shared(u):
     u.fn(ST, ['impl<T> SharedGetMutStorage<T> for DenseVecStorage<T>', 'fn shared_get_mut'], ret='r', props='C04 C06 C13', key='DenseVecStorage::shared_get_mut',
          impl_header='impl<T> DenseVecStorage<T>', mut_self=True,
@@ -93,6 +105,7 @@ def build():
     u.struct('src/storage/track.rs', ['enum ComponentEvent'], derive='Clone, Copy, PartialEq, Eq, Structural')
     _common.add_trait(u)
     add_dense(u)
+    add_dense_slice(u)
     add_dense_shared(u)
     add_map_kind(u, 'HashMapStorage')
     add_map_kind(u, 'BTreeStorage')
